@@ -3,5 +3,6 @@
 # src/node tests bind fixed TCP ports: the suite runs in a private network
 # namespace when possible (so concurrent runs cannot collide), else under a lock.
 export GOFLAGS=-mod=mod GOPROXY=off GOSUMDB=off GOTOOLCHAIN=local
+HERE="$(dirname "$(readlink -f "$0")")"
 cd "${REPO_DIR:-/repo}" || exit 2
-exec "$(dirname "$(readlink -f "$0")")/netns_run.sh" go test -vet=off -count=1 -timeout 25m ./... "$@"
+exec "$HERE/netns_run.sh" go test -vet=off -count=1 -timeout 25m ./... "$@"
